@@ -153,6 +153,9 @@ func (s *shrinker) pass(n *Node) bool {
 				if a.NoVal || a.Val == "" {
 					continue
 				}
+				if ln := strings.ToLower(a.Name); ln == "style" || strings.HasPrefix(ln, "on") || ln == "type" {
+					continue // embedded CSS/JS must stay valid; media types must stay meaningful
+				}
 				min := 0
 				if a.Quote == 0 {
 					min = 1
